@@ -1142,6 +1142,11 @@ def _make_class(case, g, lab):
     names = root["names"]
     members = [g.obj[m] for m in root["ms"]]
     base_ns = {"__annotations__": {names[0]: object}, names[0]: members[0]}
+    if len(names) >= 2:
+        # the parent also declares the LAST member, reading the never-mentioned key Z; the child overrides it:
+        # the overridden declaration is no member of the child (it contributes no key and no requirement)
+        base_ns["__annotations__"][attr_name(names[-1])] = object
+        base_ns[attr_name(names[-1])] = lab.Option("Z")
     Base = lab.datasetclass(type("Base", (), base_ns))
     n_defined = len(g.log)
     # the parent dataset class is used before the child that inherits from it is defined
@@ -1163,6 +1168,23 @@ def _make_class(case, g, lab):
     # what ran while the parent was USED is not construction; drop it from the log
     del g.log[n_defined:n_used]
     return C
+
+
+def _scramble(d):
+    """Modify a dictionary in place at every level (values changed, a key added)."""
+    for k in list(d):
+        v = d[k]
+        if isinstance(v, dict):
+            _scramble(v)
+        elif isinstance(v, list):
+            v.append("verif-appended")
+        elif isinstance(v, bool) or v is None:
+            d[k] = "verif-changed"
+        elif isinstance(v, int):
+            d[k] = v + 1000
+        else:
+            d[k] = "verif-changed"
+    d["VERIF_ADDED"] = 1
 
 
 def judge_c19_group(cases, lab):
@@ -1200,7 +1222,8 @@ def judge_c19_group(cases, lab):
         gotv = observe.call(lambda: cls.validate(copy.deepcopy(o)), lab)
         if gotv["ok"] != a["validate"]["ok"]:
             res.bad("class-validate", "class validate(): %s, members: %s" % (observe.describe(gotv), "ok" if a["validate"]["ok"] else a["validate"]["cls"]))
-        inst = observe.call(lambda: cls(copy.deepcopy(o)), lab, forced=False)
+        o_live = copy.deepcopy(o)
+        inst = observe.call(lambda: cls(o_live), lab, forced=False)
         exp = a["eval"]
         if not exp["ok"]:
             if inst["ok"]:
@@ -1220,6 +1243,11 @@ def judge_c19_group(cases, lab):
             res.bad("attribute", "plain member konst = %r, expected the constant 42" % (getattr(obj, "konst", None),))
         if a["keys"]["ok"]:
             r = repr(obj)
+            # the instance is built from the options AS THEY WERE: changing the caller's dictionary afterwards
+            # changes neither what it shows nor what it is equal to
+            _scramble(o_live)
+            if repr(obj) != r:
+                res.bad("instance-aliases-options", "repr changed from %s to %s after the caller modified the dictionary the instance was built from" % (r, repr(obj)))
             restricted = dec(a["restrict"])
             for k in keyset(a["keys"]["ks"]):
                 v = restricted
@@ -1634,6 +1662,35 @@ def ill_typed(case):
 STATEFUL_PROPS = ("C01", "C02", "C12", "C16", "C18", "C20")
 
 
+REUSE_PROPS = ("C04", "C05", "C09")
+
+
+def _reuse(prop, pairs, lab):
+    """An expression object has no memory: the SAME real graph (no cache anywhere in it) evaluated under
+    every dictionary of its group, forwards and backwards, yields the specification's value for THAT
+    dictionary each time -- whatever it was evaluated under before (a default, a step function or a
+    resolved template remembered from an earlier call would show here)."""
+    cases = [c for c, _ in pairs]
+    if len(cases) < 2 or _stateful(cases[0]):
+        return
+    if prop == "C09" and not any(nd["k"] == "tmpl" for nd in cases[0]["nodes"]) and "{" not in repr([c["a"]["o"] for c in cases]):
+        return
+    res_of = {id(c): r for c, r in pairs}
+    for order in (range(len(cases)), range(len(cases) - 1, -1, -1)):
+        g = _fresh(cases[0], lab)
+        hist = []
+        for i in order:
+            c = cases[i]
+            o = dec(c["a"]["o"])
+            got = observe.call(lambda: g.root.evaluate(copy.deepcopy(o)), lab)
+            before = len(res_of[id(c)].violations)
+            _cmp_outcome(res_of[id(c)], "reuse", got, c["a"]["eval"])
+            if len(res_of[id(c)].violations) > before:
+                cl, d = res_of[id(c)].violations[-1]
+                res_of[id(c)].violations[-1] = (cl, "on an object evaluated before under %s: %s" % (hist[-3:], d))
+            hist.append(o)
+
+
 def judge_group(prop, cases, lab):
     cases = [c for c in cases if not ill_typed(c)]
     if prop in STATEFUL_PROPS and any(c["a"].get("cacheslazy") for c in cases):
@@ -1641,7 +1698,10 @@ def judge_group(prop, cases, lab):
         return [(c, Result()) for c in cases]
     if prop in GROUP_JUDGES:
         return GROUP_JUDGES[prop](cases, lab)
-    return [(c, JUDGES[prop](c, lab)) for c in cases]
+    pairs = [(c, JUDGES[prop](c, lab)) for c in cases]
+    if prop in REUSE_PROPS:
+        _reuse(prop, pairs, lab)
+    return pairs
 
 
 def signature(prop, clause, case, detail=""):
